@@ -17,8 +17,9 @@ use poulpy_cpu_ref::{FFT64Ref, NTT120Ref};
 use poulpy_hal::{
     alloc_aligned,
     api::{
-        ModuleNew, ScratchOwnedAlloc, ScratchOwnedBorrow, SvpApplyDft, SvpPPolAlloc, SvpPrepare, VecZnxAddInto, VecZnxAutomorphism,
-        VecZnxBigAlloc, VecZnxBigNormalize, VecZnxDftAlloc, VecZnxDftApply, VecZnxIdftApply, VecZnxNormalize, VecZnxRotate,
+        CnvPVecAlloc, ModuleNew, ScratchOwnedAlloc, ScratchOwnedBorrow, SvpApplyDft, SvpPPolAlloc, SvpPrepare, VecZnxAddInto,
+        VecZnxAutomorphism, VecZnxBigAlloc, VecZnxBigNormalize, VecZnxDftAlloc, VecZnxDftApply, VecZnxIdftApply,
+        VecZnxIdftApplyConsume, VecZnxNormalize, VecZnxRotate, VmpPMatAlloc,
     },
     layouts::{
         Backend, DataView, MatZnx, Module, ReaderFrom, ScalarZnx, ScratchOwned, VecZnx, VecZnxToMut, ZnxInfos, ZnxView, ZnxViewMut,
@@ -214,6 +215,83 @@ where
     }
 }
 
+/// len, maxEnd, inside of every trait `at(i,j)` slice and of `raw()` of a prepared / big layout
+fn ranges<T: ZnxView + DataView>(t: &T) -> String
+where
+    <T as DataView>::D: AsRef<[u8]>,
+{
+    let base = t.data().as_ref().as_ptr() as usize;
+    let len = t.data().as_ref().len();
+    let w = std::mem::size_of::<T::Scalar>();
+    let mut max_end = 0usize;
+    let mut inside = true;
+    for i in 0..t.cols() {
+        for j in 0..t.size() {
+            let s = t.at(i, j);
+            let a = s.as_ptr() as usize;
+            let e = a + s.len() * w;
+            if a < base || e > base + len {
+                inside = false;
+            }
+            max_end = max_end.max(e.wrapping_sub(base));
+        }
+    }
+    let r = t.raw();
+    let e = r.as_ptr() as usize + r.len() * w;
+    if e > base + len {
+        inside = false;
+    }
+    max_end = max_end.max(e - base);
+    format!("{w},{len},{max_end},{}", inside as u8)
+}
+
+fn prep<BE: Backend>(kind: &str, p: &[u64]) -> String
+where
+    Module<BE>: ModuleNew<BE> + VecZnxDftAlloc<BE> + VecZnxBigAlloc<BE> + SvpPPolAlloc<BE> + VmpPMatAlloc<BE> + CnvPVecAlloc<BE>,
+{
+    let module: Module<BE> = Module::<BE>::new(p[0]);
+    let u = |k: usize| p.get(k).copied().unwrap_or(1) as usize;
+    match kind {
+        "big" => ranges(&module.vec_znx_big_alloc(u(1), u(2))),
+        "dft" => ranges(&module.vec_znx_dft_alloc(u(1), u(2))),
+        "svp" => ranges(&module.svp_ppol_alloc(u(1))),
+        "cnvl" => ranges(&module.cnv_pvec_left_alloc(u(1), u(2))),
+        "cnvr" => ranges(&module.cnv_pvec_right_alloc(u(1), u(2))),
+        // p = n, rows, cols_in, cols_out, size
+        "vmp" => ranges(&module.vmp_pmat_alloc(u(1), u(2), u(3), u(4))),
+        _ => "bad-kind".into(),
+    }
+}
+
+/// consume (in-place compaction on NTT120) must give the same VecZnxBig as the non-consuming idft
+fn consume<BE: Backend>(n: usize, cols: usize, size: usize) -> String
+where
+    Module<BE>: ModuleNew<BE> + VecZnxDftAlloc<BE> + VecZnxDftApply<BE> + VecZnxIdftApply<BE> + VecZnxIdftApplyConsume<BE> + VecZnxBigAlloc<BE>,
+    ScratchOwned<BE>: ScratchOwnedAlloc<BE> + ScratchOwnedBorrow<BE>,
+{
+    let module: Module<BE> = Module::<BE>::new(n as u64);
+    let mut scratch: ScratchOwned<BE> = ScratchOwned::alloc(1 << 20);
+    let mut a = VecZnx::alloc(n, cols, size);
+    for (k, x) in a.raw_mut().iter_mut().enumerate() {
+        *x = (k as i64 * 1_000_003 + 17) % 4001 - 2000;
+    }
+    let mut d1 = module.vec_znx_dft_alloc(cols, size);
+    let mut d2 = module.vec_znx_dft_alloc(cols, size);
+    for c in 0..cols {
+        module.vec_znx_dft_apply(1, 0, &mut d1, c, &a, c);
+        module.vec_znx_dft_apply(1, 0, &mut d2, c, &a, c);
+    }
+    let mut b1 = module.vec_znx_big_alloc(cols, size);
+    for c in 0..cols {
+        module.vec_znx_idft_apply(&mut b1, c, &d1, c, scratch.borrow());
+    }
+    let b2 = module.vec_znx_idft_apply_consume(d2);
+    let w = std::mem::size_of::<BE::ScalarBig>();
+    let l = n * cols * size * w;
+    let same = b1.data().as_ref()[..l] == b2.data().as_ref()[..l];
+    format!("same={} {}", same as u8, ranges(&b2))
+}
+
 pub fn run(_args: &[String]) {
     std::panic::set_hook(Box::new(|_| {}));
     let stdin = std::io::stdin();
@@ -229,6 +307,24 @@ pub fn run(_args: &[String]) {
         let ans = match op {
             "hist" => hist(&t),
             "mat" => std::panic::catch_unwind(|| mat(&t)).unwrap_or_else(|e| format!("panic:{}", panic_class(&e))),
+            "prep" | "consume" => {
+                let be = kv(&t, "be").unwrap_or("fft64ref").to_string();
+                let kind = kv(&t, "kind").unwrap_or("big").to_string();
+                let p = nums(kv(&t, "p"));
+                let isprep = op == "prep";
+                let r = std::panic::catch_unwind(|| match (be.as_str(), isprep) {
+                    ("fft64ref", true) => prep::<FFT64Ref>(&kind, &p),
+                    ("ntt120ref", true) => prep::<NTT120Ref>(&kind, &p),
+                    ("fft64avx", true) => prep::<FFT64Avx>(&kind, &p),
+                    ("ntt120avx", true) => prep::<NTT120Avx>(&kind, &p),
+                    ("fft64ref", false) => consume::<FFT64Ref>(p[0] as usize, p[1] as usize, p[2] as usize),
+                    ("ntt120ref", false) => consume::<NTT120Ref>(p[0] as usize, p[1] as usize, p[2] as usize),
+                    ("fft64avx", false) => consume::<FFT64Avx>(p[0] as usize, p[1] as usize, p[2] as usize),
+                    ("ntt120avx", false) => consume::<NTT120Avx>(p[0] as usize, p[1] as usize, p[2] as usize),
+                    _ => "bad-be".into(),
+                });
+                r.unwrap_or_else(|e| format!("panic:{}", panic_class(&e)))
+            }
             "canary" => {
                 let n = kv(&t, "n").and_then(|x| x.parse().ok()).unwrap_or(8usize);
                 let cols = kv(&t, "cols").and_then(|x| x.parse().ok()).unwrap_or(1usize);
